@@ -146,11 +146,13 @@ func RunBounded(name string, inputLen, limit int, drain func(success func() bool
 	}
 	pb, err, timedOut := run()
 	if timedOut {
-		// retry once in isolation: only a repeatable hang counts
-		if _, err2, again := run(); again {
-			return pb, err2
+		// retry twice: only a hang that repeats every time counts (a loaded machine may stall one attempt)
+		for i := 0; i < 2; i++ {
+			if _, _, again := run(); !again {
+				return pb, nil
+			}
 		}
-		return pb, nil
+		return pb, err
 	}
 	if err != nil {
 		return pb, err
